@@ -212,6 +212,7 @@ func runC18(c *Ctx) {
 	lockQueryEncoded(c, "R1")
 	verifyUsesOnlyVerifyAction(c, "R4")
 	newTransferCopiesServerFields(c, "R2")
+	actionSetsCopiedFromTheirOwn(c, "R2")
 	extraHeadersAreAdded(c, "R4")
 	// ---- R2 first: which Transfer fields are set on request objects --------------------------
 	setFields := map[string]bool{}
@@ -609,6 +610,7 @@ func constStringOf(p *Prog, pkg, name string) string {
 }
 
 var c18Canaries = []Canary{
+	{Name: "r6-extra-header-replaces", ExpectKey: "C18.R4#extra-headers:appended", Edits: []Edit{{File: "lfshttp/client.go", Find: "\t\tcopy[k] = vs\n\t}\n\n\tfor k, vs := range extraHeaders {\n\t\tfor _, v := range vs {\n\t\t\tcopy[k] = append(copy[k], v)\n\t\t}\n\t}\n\treturn copy\n}\n", Repl: "\t\tcopy[k] = vs\n\t}\n\n\t// This runs once per attempt (authentication retries and redirects come\n\t// back through here with the same request), so assign the configured\n\t// values instead of appending them again on every pass.\n\tfor k, vs := range extraHeaders {\n\t\tcopy[k] = vs\n\t}\n\treturn copy\n}\n"}}},
 	{Name: "r5-offered-authorization-dropped", ExpectKey: "C18.R4#authorization-dropped-only-if-own", Edits: []Edit{{File: "lfsapi/auth.go", Find: "\t\t\tif credWrapper.Creds != nil {\n\t\t\t\treq.Header.Del(\"Authorization\")", Repl: "\t\t\treq.Header.Del(\"Authorization\")\n\t\t\tif credWrapper.Creds != nil {"}}},
 	{Name: "r4-redirect-drops-body", ExpectKey: "C18.R7#redirect:carries-Body", Edits: []Edit{{File: "lfshttp/client.go", Find: "\tnewReq.Body = req.Body\n", Repl: "\tif req.Method != \"POST\" {\n\t\tnewReq.Body = req.Body\n\t}\n"}}},
 	{Name: "rename-operation-tag", ExpectKey: "C18.R1#batchRequest:required(operation)", Edits: []Edit{{File: "tq/api.go", Find: "`json:\"operation\"`", Repl: "`json:\"op\"`"}}},
